@@ -21,6 +21,11 @@ type curveEntryRunC07GT struct {
 	run  func(r *vlib.Run, g string)
 }
 
+type curveEntryRunC07T struct {
+	name string
+	run  func(r *vlib.Run, g string)
+}
+
 type curveEntryRunC07S struct {
 	name string
 	run  func(r *vlib.Run, g string)
@@ -54,6 +59,20 @@ func main() {
 	for _, c := range curvesRunC07S {
 		c := c
 		g := c.name + "/stream"
+		if sh := r.Shard(); sh != "" {
+			if sh == g {
+				c.run(r, g)
+				r.Finish()
+			}
+			continue
+		}
+		names = append(names, g)
+		bodies[g] = func() { r.RunShard(g, 12288, nil) }
+	}
+	// the typed codecs too: a desynchronised decoder allocates what a garbage prefix announces
+	for _, c := range curvesRunC07T {
+		c := c
+		g := c.name + "/typed"
 		if sh := r.Shard(); sh != "" {
 			if sh == g {
 				c.run(r, g)
